@@ -21,5 +21,5 @@ PROPS["C16"] = {
                     "built with the repository's Arduino stubs (extras/tests/Helpers) and ARDUINOJSON_ENABLE_ARDUINO_{STRING,STREAM,PRINT}=1, ENABLE_PROGMEM=1"],
     "quick": [{"src": "checks/ix_stream.cpp", "mode": "stream", "arduino": True, "deps": ["checks/ix_stream.hpp"]}],
     "thorough": [{"src": "checks/ix_stream.cpp", "mode": "stream", "arduino": True, "deps": ["checks/ix_stream.hpp"]}],
-    "thorough_deadline": 840,
+    "thorough_deadline": 860,
 }
